@@ -589,7 +589,7 @@ def detect_flags(impl):
 
 # ---------------------------------------------------------------- the check
 def gen_cases(rng, thorough):
-    n = 4200 if thorough else 330
+    n = 6000 if thorough else 1200
     mix = [("oks", 0.36), ("match", 0.30), ("area", 0.06), ("greedy", 0.08), ("hung", 0.05), ("iou", 0.06),
            ("cos", 0.05), ("euc", 0.04)]
     cases = []
